@@ -5,6 +5,7 @@ import base64
 from vlib import common as C
 
 ALPHABET = 'ABCDEFGHIJKLMNOPQRSTUVWXYZabcdefghijklmnopqrstuvwxyz0123456789+/'
+DRIVERS = ['Base64']   # model driver files this check runs: scopes translator failures to the tables they (and the proofs) import
 TRUSTED = ['Rust std: char::as u8 truncation, String::from_utf8, str::chars, str::len (modelled in Rws.Prim/Rws.Base64)',
            'model abstraction: a decode chunk holding a byte >= 0x80 is answered Err without modelling from_utf8 of the truncated bytes (see Rws/Base64.lean header)']
 ASSUMPTIONS = ['protocol glue: hex fields, UTF-8 decoding of the text field by Lean String.fromUTF8? and Rust String::from_utf8',
